@@ -243,6 +243,9 @@ func runC05(w *World, r *Report) {
 	// a transfer is counted with the same amount on the issuer's and on the receiver's side (also when they are one wallet)
 	r.rule("flows-counted-on-both-sides", "pourFunds supplies the outflow behind issuer == address and the inflow behind receiver == address with the transaction's own amount, and one execution can do both", 4)
 	pourFundsRoles(w, r, "flows-counted-on-both-sides")
+	// a wallet's checkpoint record is rewritten at every truncation: a record that is skipped keeps saying what the wallet
+	// owned one truncation ago (funds that were spent since exist twice)
+	checkpointWritesEveryAddress(w, r, "checkpoint-replaces-every-record")
 	// ---- 1. failure changes neither side
 	r.rule("atomic-on-failure", "at every error return of Supply/Transfer no *Melange pointee differs from its entry value: each store is undone by copyFrom(clone taken at entry) on every feasible path", 6)
 	for _, spec := range [][2]string{{"Melange", "Supply"}, {"", "Transfer"}} {
@@ -869,6 +872,7 @@ func runC06(w *World, r *Report) {
 	checkpointPruneAtomic(w, r)
 	checkpointWritesEveryAddress(w, r, "checkpoint-replaces-every-record")
 	checkpointKeyDiscipline(w, r, "checkpoint-keys-agree")
+	checkpointCountsWhatBalanceCounts(w, r, "checkpoint-counts-what-the-balance-counts")
 	r.rule("flow-classifier", "pourFunds classifies issuer→outflow and receiver→inflow as two independent tests with the same amount", 4)
 	pourFundsRoles(w, r, "flow-classifier")
 
@@ -957,6 +961,7 @@ func runC07(w *World, r *Report) {
 
 	checkpointWritesEveryAddress(w, r, "checkpoint-writes-every-address")
 	checkpointKeyDiscipline(w, r, "checkpoint-keys-agree")
+	checkpointCountsWhatBalanceCounts(w, r, "checkpoint-counts-what-the-balance-counts")
 
 	storageWriters(w, r, "storage-only-what-is-pruned")
 
@@ -1525,4 +1530,49 @@ func visitedSetIsLocal(fn *ssa.Function, m ssa.Value) bool {
 		}
 	}
 	return true
+}
+
+// checkpointCountsWhatBalanceCounts: the checkpoint writer and the live accounting agree on which vertices carry funds.
+// pourFunds leaves a vertex out only when its transaction is not a spice transfer; fundsMemMap.nextVertex, which folds
+// the vertices that truncation removes into the checkpoint, may leave a vertex out for that reason only (a vertex that
+// the balance counts while it is live and the checkpoint skips when it is pruned changes every balance it touches).
+func checkpointCountsWhatBalanceCounts(w *World, r *Report, rule string) {
+	r.rule(rule, "fundsMemMap.nextVertex returns without accounting the vertex only behind IsSpiceTransfer() == false of that vertex's transaction — the one exemption pourFunds has", 1)
+	f := w.fx(r, "accountant", "fundsMemMap", "nextVertex")
+	if f == nil {
+		return
+	}
+	fn := f.fn
+	v := fn.Params[1].Name()
+	var notTransfer []Edge
+	for _, c := range callsTo(fn, cn("transaction", "*Transaction", "IsSpiceTransfer"), cn("transaction", "Transaction", "IsSpiceTransfer")) {
+		recv, _ := callArgs(c)
+		if strings.HasPrefix(pathOf(recv), v+".Transaction") || pathOf(recv) == v+".Transaction" {
+			notTransfer = append(notTransfer, passBool(c, 0, false)...)
+		}
+	}
+	upd := func(in ssa.Instruction) bool {
+		c, ok := in.(ssa.CallInstruction)
+		if !ok || !strings.HasSuffix(calleeName(c), "fundsMemMap).updateFounds") {
+			return false
+		}
+		_, a := callArgs(c)
+		return len(a) == 3 && strings.HasPrefix(pathOf(a[2]), v+".Transaction.Spice")
+	}
+	skipped := 0
+	where := ""
+	walkFrom(nil, fn.Blocks[0], edgeSet(notTransfer), func(in ssa.Instruction) bool {
+		if upd(in) {
+			return true
+		}
+		if ret, ok := in.(*ssa.Return); ok {
+			if successReturn(ret) {
+				skipped++
+				where = lineOf(w, ret)
+			}
+			return true
+		}
+		return false
+	})
+	r.check(len(notTransfer) > 0 && skipped == 0, rule, "nextVertex/only-non-transfers-skipped", w.Pos(fn.Pos()), "a vertex is left out of the checkpoint only when its transaction is not a spice transfer", fmt.Sprintf("%d successful returns (e.g. %s) are reachable without updateFounds and without the IsSpiceTransfer() == false edge; non-transfer edges found: %d", skipped, where, len(notTransfer)))
 }
